@@ -136,3 +136,14 @@ Definition com_sums (f : arr) (lab : list Z) (l : Z) : Z * list Z :=
                            else acc)
             (combine (Zseq 0 (Z.to_nat (size (shape f)))) (all_positions (shape f)))
             (0, map (fun _ => 0) (shape f)).
+
+(* ---------- labeled bbox (_bbox.cpp bbox_labeled + the reset loop of py_bbox_labeled) ----------
+   one row of extrema per label 0..n, all initialised to (dim, 0) pairs; every pixel updates the row of its label (negative
+   values are skipped: "not a label"); afterwards rows whose extrema[1] is still 0 are set to zeros *)
+Definition lbb_update (rows : list (list Z)) (l : Z) (p : list Z) : list (list Z) :=
+  if l <? 0 then rows else updZ rows l (upd_ext (nthZ [] rows l) p).
+Definition lbb_scan (f : arr) (n : Z) : list (list Z) :=
+  fold_left (fun rows p => lbb_update rows (aget f p) p) (all_positions (shape f))
+            (repeat (ext_init (shape f)) (Z.to_nat (n + 1))).
+Definition bbox_labeled (f : arr) (n : Z) : list (list Z) :=
+  map (fun e => if nthZ 0 e 1 =? 0 then map (fun _ => 0) e else e) (lbb_scan f n).
